@@ -2825,3 +2825,59 @@ def _equal_valued_twins(prop):
 
 _equal_valued_twins("C13")
 _equal_valued_twins("C03")
+
+
+# ------------------------------------------------------------------ round 8 anticipations
+def huge_header_cases(prefix):
+    """256-300 columns / signals (one byte is not enough for a column index), names of 300 bytes, with a far duplicate,
+    with X / C in the last columns, run and static"""
+    cases = []
+    for n in (255, 256, 257, 300):
+        names = ["s%d" % i for i in range(n)]
+        sigs = [{"name": nm_, "typ": "I" if i % 3 else "O", "bits": 1 + i % 8, "default": "0" if i % 3 else "-"} for i, nm_ in enumerate(names)]
+        row1 = " ".join(("1" if i % 3 else "X") for i in range(n))
+        row2 = " ".join((("X" if i == n - 2 else "C" if i == n - 1 and (n - 1) % 3 else "0") if i % 3 else "X") for i in range(n))
+        lay = [i for i in range(n) if i % 3 == 0]
+        src = " ".join(names) + "\n" + row1 + "\n" + row2 + "\n"
+        cases.append({"id": "%s-huge-%d" % (prefix, n), "kind": "run", "src": src, "sigs": sigs, "layout": lay, "table": [[str(i % 2) for i in lay]],
+                      "echo": 0, "wdefault": n % 2, "faults": [], "max": 12, "seed": n, "cont": 0})
+        cases.append({"id": "%s-huge-%d-s" % (prefix, n), "kind": "static", "src": src, "sigs": sigs, "layout": [], "table": [], "echo": 0, "wdefault": 0, "faults": [], "max": 12, "seed": n})
+        dup = list(names)
+        dup[n - 1] = names[n - 256] if n > 256 else names[0]
+        cases.append({"id": "%s-huge-%d-dup" % (prefix, n), "kind": "parse", "src": " ".join(dup) + "\n" + row1 + "\n"})
+    long_a, long_b = "N" * 300, "N" * 299 + "M"
+    sigs = [{"name": long_a, "typ": "I", "bits": 4, "default": "0"}, {"name": long_b, "typ": "O", "bits": 4, "default": "-"}]
+    cases.append({"id": "%s-longnames" % prefix, "kind": "run", "src": "%s %s\n3 (%s)\n(%s+1) X\n" % (long_a, long_b, long_b, long_b), "sigs": sigs, "layout": [1], "table": [["5"]],
+                  "echo": 0, "wdefault": 0, "faults": [], "max": 12, "seed": 3, "cont": 0})
+    cases.append({"id": "%s-longnames-dup" % prefix, "kind": "parse", "src": "%s %s %s\n1 1 1\n" % (long_a, long_b, long_a)})
+    return cases
+
+
+for _p in ("C06", "C09", "C10", "C11", "C12", "C05"):
+    _extend(_p, (lambda pref: (lambda seed, tier: huge_header_cases(pref)))(_p.lower()), "plus headers of 255-300 columns (with a far duplicate; X / C in the last columns) and names of 300 bytes")
+
+
+def c08_unary_chains(seed, tier):
+    sigs = [{"name": "A", "typ": "I", "bits": 1, "default": "0"}, {"name": "Q", "typ": "O", "bits": 8, "default": "-"}]
+    rng = random.Random(seed ^ 0x08C)
+    lines, exp = ["A V", "declare V = Q;", "let x = 5;", "let m = %s;" % lit64(MIN64)[1:-1]], []
+    env = {"x": 5, "m": MIN64}
+    for k in range(60):
+        ops = [rng.choice(["-", "!", "~"]) for _ in range(rng.randrange(2, 9))]
+        atom = rng.choice([("var", "x"), ("var", "m"), ("num", 0), ("num", 1), ("num", 2 ** 63 - 1)])
+        e = atom
+        for o in reversed(ops):
+            e = ("un", o, e)
+        inner = "x" if atom == ("var", "x") else "m" if atom == ("var", "m") else str(atom[1])
+        text = "".join(ops) + inner
+        if k % 3 == 0:
+            text = "".join(o + "(" for o in ops) + inner + ")" * len(ops)
+        if k % 3 == 1:
+            text = "((((" + text + "))))" + rng.choice([" + 0", " * 1", ""])
+        lines.append("0 (%s)" % text)
+        exp.append(py_eval(e, env))
+    return [{"id": "c08-unary-chains", "kind": "run", "src": "\n".join(lines) + "\n", "sigs": sigs, "layout": [1], "table": [["1"]],
+             "echo": 0, "wdefault": 0, "faults": [], "max": 100000, "seed": 1, "c08": exp}]
+
+
+_extend("C08", c08_unary_chains, "plus chains of 2-8 unary operators over variables and boundary literals, with nested parentheses")
